@@ -31,3 +31,7 @@ func init() {
 func init() {
 	props["C16"] = &propInfo{engine: "A", level: "model_checking", assume: schedAssume, minOutcomes: 1}
 }
+
+func init() {
+	props["C10"] = &propInfo{engine: "A", level: "model_checking", assume: schedAssume, minOutcomes: 2}
+}
